@@ -24,16 +24,28 @@ def sources(tier):
     for label, m in gp.gen_models("quick", pairs=False):
         out.append(label)
     out.append("captured_sharding@11")
+    out.append("function_body_sharding@11")
     return out
 
 
 def build_source(label):
-    want = "if_with_captures@10" if label == "captured_sharding@11" else label
+    want = {"captured_sharding@11": "if_with_captures@10", "function_body_sharding@11": "function_with_subgraph@10"}.get(label, label)
     for lab, m in gp.gen_models("quick", pairs=False):
         if lab == want:
-            if label == "captured_sharding@11":
+            if label in ("captured_sharding@11", "function_body_sharding@11"):
                 m.ir_version = 11
             model = ir.from_proto(m)
+            if label == "function_body_sharding@11":
+                # annotations made through the public API (not read from a proto) on every node of every function
+                # body, nested control-flow bodies included
+                cfgf = model.add_device_configuration("fn_mesh", num_devices=2, device_names=("CPU", "CUDA:0"))
+                cfgp = model.add_device_configuration("fn_pipe", num_devices=1)
+                for fn in model.functions.values():
+                    for n in fn.all_nodes():
+                        o0 = n.outputs[0] if n.outputs else None
+                        if o0 is not None and o0.name and (o0.shape is None or len(o0.shape) > 0):
+                            n.shard(o0, configuration=cfgf, axis=0, num_shards=2)
+                        n.set_pipeline_stage(cfgp, 1)
             if label == "captured_sharding@11":
                 # nodes inside the If bodies are sharded on values captured from the main graph
                 cfg = model.add_device_configuration("mesh", num_devices=2)
@@ -646,7 +658,7 @@ def main(tier):
     srcs = sources(tier)
     if tier == "quick":
         keep = ("baseline@10", "if_with_captures@10", "nested_if_initializer_in_body@10", "function_with_attributes@10", "device_configurations@11",
-                "value_info_everywhere@10", "nested_types_on_values@10", "all_attribute_kinds@10", "output_is_initializer_and_input@10", "quantization_annotations@10", "captured_sharding@11", "device_configuration_in_function_body@10", "function_with_subgraph@10")
+                "value_info_everywhere@10", "nested_types_on_values@10", "all_attribute_kinds@10", "output_is_initializer_and_input@10", "quantization_annotations@10", "captured_sharding@11", "device_configuration_in_function_body@10", "function_with_subgraph@10", "function_body_sharding@11")
         srcs = [s for s in srcs if s in keep]
     for label in srcs:
         model = build_source(label)
